@@ -287,3 +287,161 @@ def lit_of(syms):
 
 def writable(atoms):
     return not atoms or atoms[-1] != BS
+
+
+INC = {"path": "inc.thrift", "namespaces": [{"lang": "go", "name": "inc"}], "defs": [
+    enum("Color", [("RED", 1), ("GREEN", None)]),
+    struct("Pt", [F(1, "default", T("i32"), "x"), F(2, "default", T("i32"), "y")]),
+    struct("Err", [F(1, "default", T("string"), "msg")], k="exception"),
+    struct("Err2", [F(1, "default", T("string"), "msg")], k="exception"),
+    struct("Err3", [F(1, "default", T("string"), "msg")], k="exception"),
+    service("Base", [fn("ping")]),
+    const("K", T("i32"), I(7)),
+    typedef("Str", T("string")),
+]}
+
+
+def prog(name, defs=None, inc=True, **kw):
+    """a semantically valid program: main file + (optionally) inc.thrift"""
+    f = {"path": name + ".thrift", "defs": defs or []}
+    f.update(kw)
+    files = [f]
+    if inc:
+        f.setdefault("includes", [])
+        if "inc.thrift" not in f["includes"]:
+            f["includes"] = ["inc.thrift"] + f["includes"]
+        files.append(INC)
+    return {"name": name, "files": files}
+
+
+def c17_base_programs():
+    out = []
+    # a file without any header or definition (the dump of its AST is the empty text)
+    out.append({"name": "rt_blank", "files": [{"path": "rt_blank.thrift", "defs": []}], "raw": {"rt_blank.thrift": "// nothing\n"}})
+    out.append(prog("rt_headers", cpp_includes=["<vector>", "a/b.h"],
+                    namespaces=[{"lang": "go", "name": "main.pkg", "ann": [A("ns", "a"), A("ns", "b")]},
+                                {"lang": "*", "name": "star"}, {"lang": "py", "name": "p"}]))
+    out.append(prog("rt_typedefs", [
+        typedef("MyInt", T("i32"), ann=[A("td", "x")]),
+        typedef("Pts", T("list", T("inc.Pt"), ann=[A("l", "1")])),
+        typedef("M", T("map", T("string", ann=[A("k", "kk")]), T("inc.Color"))),
+        typedef("S", T("set", T("MyInt", ann=[A("e", "1"), A("e", "2")]), ann=[A("s", "3")]), ann=[A("d", "4")]),
+        typedef("N", T("map", T("i64"), T("list", T("map", T("string"), T("inc.Str"))))),
+    ]))
+    out.append(prog("rt_consts", [
+        const("CI", T("i32"), I(-5), ann=[A("c", "ann")]),
+        const("BIG", T("i64"), I(9223372036854775807)),
+        const("MIN", T("i64"), I(-9223372036854775808)),
+        const("D1", T("double"), D(1, "5")),
+        const("D2", T("double"), D(3, "0")),
+        const("D3", T("double"), D(0, "25", neg=True)),
+        const("D4", T("double"), Dfix("0.0000001")),
+        const("D5", T("double"), Dfix("123456789012.5")),
+        const("D6", T("double"), Dfix("-0.0")),
+        const("S1", T("string"), L("h", "i")),
+        const("S0", T("string"), L()),
+        const("B1", T("bool"), ID("true")),
+        const("E1", T("inc.Color"), ID("inc.Color.RED")),
+        const("K2", T("i32"), ID("inc.K")),
+        const("L0", T("list", T("i32")), LST()),
+        const("L1", T("list", T("double")), LST(D(1, "0"), D(2, "5"), I(3))),
+        const("M0", T("map", T("string"), T("i32")), MAP()),
+        const("M1", T("map", T("string"), T("list", T("string"))), MAP((L("k"), LST(L("a"), L())), (L(), LST()))),
+        const("N1", T("map", T("i32"), T("map", T("i32"), T("string"))), MAP((I(1), MAP((I(2), L("z")))), (I(-3), MAP()))),
+        const("P1", T("inc.Pt"), MAP((L("x"), I(1)), (L("y"), I(-2)))),
+        const("ST", T("set", T("string")), LST(L("a"), L("b"))),
+    ]))
+    out.append(prog("rt_bigdouble", [const("HUGE", T("double"), Dfix("10000000000000000000.0"))], inc=False))
+    out.append(prog("rt_enums", [
+        enum("E0", []),
+        enum("E1", [("A", None), ("B", None)]),
+        enum("E2", [("A", -3), ("B", None), ("C", 10, [A("ev", "y"), A("ev", "z")])], ann=[A("en", "e")]),
+    ], inc=False))
+    out.append(prog("rt_structs", [
+        struct("S0", []),
+        struct("S1", [F(1, "required", T("i32"), "a", I(7)), F(2, "optional", T("string"), "b", L("hi")),
+                      F(-1, "default", T("double"), "c", D(0, "5")), F(-2, "default", T("bool"), "e", ID("false")),
+                      F(5, "optional", T("inc.Color"), "col", ID("inc.Color.GREEN")),
+                      F(6, "default", T("list", T("i32")), "l", LST(I(1), I(2)), ann=[A("f", "1")]),
+                      F(7, "optional", T("map", T("string"), T("string"), ann=[A("t", "m")]), "m", MAP((L("k"), L("v"))),
+                        ann=[A("f", "1"), A("g", "2"), A("f", "3")]),
+                      F(8, "optional", T("inc.Pt"), "p", MAP((L("x"), I(1)))),
+                      F(9, "optional", T("S0"), "s0")], ann=[A("s", "t")]),
+        struct("U0", [], k="union"),
+        struct("U1", [F(1, "default", T("i32"), "a"), F(2, "optional", T("string"), "b")], k="union", ann=[A("u", "v")]),
+        struct("X0", [], k="exception"),
+        struct("X1", [F(1, "default", T("string"), "msg"), F(2, "required", T("i32"), "code", I(-1))], k="exception",
+               ann=[A("x", "y")]),
+    ]))
+    out.append(prog("rt_services", [
+        service("V0", []),
+        service("V1", [fn("ping"), fn("one", oneway=True), fn("get", ret=T("inc.Pt", ann=[A("ret", "4")]))],
+                extends="inc.Base", ann=[A("svc", "7")]),
+        service("V2", [fn("a", [F(1, "default", T("i32"), "x"), F(2, "required", T("inc.Pt"), "y"),
+                                 F(-2, "optional", T("string"), "z")],
+                          throws=[F(1, "default", T("inc.Err"), "e1"), F(2, "default", T("inc.Err2"), "e2")],
+                          ret=T("map", T("string"), T("i64")), ann=[A("fn", "5"), A("fn", "6")])], extends="V1"),
+    ]))
+    out.append(prog("rt_argdefaults", [
+        service("V", [fn("a", [F(1, "default", T("i32"), "x", I(4))])])], inc=False))
+    out.append(prog("rt_argannotations", [
+        service("V", [fn("a", [F(1, "default", T("i32"), "x", ann=[A("arg", "1")])])])], inc=False))
+    out.append(prog("rt_throwsannotations", [
+        service("V", [fn("a", [], throws=[F(1, "default", T("inc.Err"), "e", ann=[A("th", "1")])])])]))
+    return out
+
+
+PLACES = ["const", "default", "ann_struct", "ann_field", "ann_type", "ann_ns", "ann_enumval", "ann_fn", "ann_typedef",
+          "listelem", "mapkey", "include", "cpp_include"]
+
+
+def literal_program(place, atoms, k):
+    """a minimal valid program with one literal of the given content at the given place"""
+    name = "lit_%s_%d" % (place, k)
+    lit = L(*atoms)
+    an = [A("k", *atoms)]
+    if place == "const":
+        return prog(name, [const("C", T("string"), lit)], inc=False)
+    if place == "default":
+        return prog(name, [struct("S", [F(1, "default", T("string"), "a", lit)])], inc=False)
+    if place == "listelem":
+        return prog(name, [const("C", T("list", T("string")), LST(L("x"), lit))], inc=False)
+    if place == "mapkey":
+        return prog(name, [const("C", T("map", T("string"), T("string")), MAP((lit, lit)))], inc=False)
+    if place == "ann_struct":
+        return prog(name, [struct("S", [F(1, "default", T("i32"), "a")], ann=an)], inc=False)
+    if place == "ann_field":
+        return prog(name, [struct("S", [F(1, "default", T("i32"), "a", ann=an)])], inc=False)
+    if place == "ann_type":
+        return prog(name, [struct("S", [F(1, "default", T("list", T("i32", ann=an)), "a")])], inc=False)
+    if place == "ann_typedef":
+        return prog(name, [typedef("Tt", T("i32", ann=an), ann=[A("o", *atoms)])], inc=False)
+    if place == "ann_ns":
+        return prog(name, [], inc=False, namespaces=[{"lang": "go", "name": "x", "ann": an}])
+    if place == "ann_enumval":
+        return prog(name, [enum("E", [("A", 1, an)])], inc=False)
+    if place == "ann_fn":
+        return prog(name, [service("V", [fn("f", ann=an)], ann=[A("s", *atoms)])], inc=False)
+    if place == "include":
+        from c03_lex import esc
+        path = "".join(atoms) + ".thrift"
+        p = prog(name, [], inc=False, includes=[esc(list(atoms) + [".thrift"], '"')])
+        p["files"].append({"path": path, "defs": [], "namespaces": [{"lang": "go", "name": "incl"}]})
+        return p
+    if place == "cpp_include":
+        from c03_lex import esc
+        return prog(name, [], inc=False, cpp_includes=[esc(list(atoms), '"')])
+    raise ValueError(place)
+
+
+def service_program(shape, k):
+    """function with na arguments and nt throws entries (nt = -1: no throws clause)"""
+    na, nt, ow, ids = shape["na"], shape["nt"], shape["ow"], shape["ids"]
+
+    def fid(i):
+        return {"explicit": i + 1, "implicit": None, "negative": -(i + 1)}[ids]
+    args = [F(fid(i), ("default", "required", "optional")[i % 3], T(("i32", "inc.Pt", "string")[i % 3]), "a%d" % i)
+            for i in range(na)]
+    throws = None if nt < 0 else [F(fid(i), "default", T(("inc.Err", "inc.Err2", "inc.Err3")[i]), "e%d" % i) for i in range(nt)]
+    return prog("svc_%d" % k, [service("V", [fn("f", args, throws=throws, oneway=ow, ret=None if (ow or na % 2) else T("i32")),
+                                             fn("g")])])
